@@ -310,7 +310,8 @@ def check(seed, n, herad_path=None):
                         dist[o] += 1
                     elif o == "v":
                         dist["value"] += 1
-    return dict(evaluations=len(items), disagreements=disagreements, violations=violations, distribution=dist)
+    return dict(evaluations=len(items), disagreements=disagreements, violations=violations, distribution=dist,
+                distinct=len({(it["stage"], it["text"]) for it in items if len(it["text"].strip()) > 1}))
 
 
 STAGE_CMDS = [[], ["next 12"], ["next 12", "continue"]]
